@@ -58,6 +58,11 @@ func c01Dims() []c01Dim {
 			func(i *ref.Iface) {
 				i.Prefix = []ref.Table{T("deprecated", true, "valid_lifetime", "2h", "preferred_lifetime", "1h")}
 			},
+			// the wildcard, then an explicit deprecated stanza for a /64 the wildcard also
+			// expands to (the interface has an address in it): both are advertised
+			func(i *ref.Iface) {
+				i.Prefix = []ref.Table{T(), T("prefix", "2001:db8:1::/64", "deprecated", true, "valid_lifetime", "2h", "preferred_lifetime", "1h")}
+			},
 		}},
 		{"route", []func(*ref.Iface){
 			none,
@@ -69,6 +74,10 @@ func c01Dims() []c01Dim {
 			},
 			func(i *ref.Iface) {
 				i.Route = []ref.Table{T("deprecated", true, "lifetime", "90m", "preference", "high")}
+			},
+			// the wildcard, then an explicit deprecated route the wildcard also expands to
+			func(i *ref.Iface) {
+				i.Route = []ref.Table{T(), T("prefix", "2001:db8:f000::/48", "deprecated", true, "lifetime", "90m")}
 			},
 		}},
 		{"rdnss", []func(*ref.Iface){
@@ -447,7 +456,7 @@ func c01Doc(dims []c01Dim, choice []int, header, max int, group bool) (ref.Doc, 
 func TestVerifC01(t *testing.T) {
 	r := ev.Begin("C01", "build")
 	defer r.End(t)
-	r.Rule = "documents = product of stanza-kind variants (prefix 7 x route 6 x rdnss 4 x dnssl 3 x mtu 2 x source_lla 3 x captive portal 2 x pref64 5; quick: all choices with <=2 non-default dimensions) with default header, plus 13 header variants x 3 max_interval x {name, names group} on 1-dimension-varied documents from the empty and the all-options base, plus pref64 for all 1797 whole-second max_interval; each x system states (address lists rich/reversed/one/empty/failing, nested loopback routes, MAC present/absent, forwarding on/off, clock at epoch/+30m/+1h/+90m/+3h); lifecycle Parse -> real Prepare (NewAddresser seam, per-interface index) -> RouterAdvertisement x3; oracle = reference RA from the reference model's expected Config; non-trivial = document has >=1 option-producing stanza; distinct = distinct TOML x state"
+	r.Rule = "documents = product of stanza-kind variants (prefix 8 x route 7 x rdnss 4 x dnssl 3 x mtu 2 x source_lla 3 x captive portal 2 x pref64 5; quick: all choices with <=2 non-default dimensions) with default header, plus 13 header variants x 3 max_interval x {name, names group} on 1-dimension-varied documents from the empty and the all-options base, plus pref64 for all 1797 whole-second max_interval; each x system states (address lists rich/reversed/one/empty/failing, nested loopback routes, MAC present/absent, forwarding on/off, clock at epoch/+30m/+1h/+90m/+3h); lifecycle Parse -> real Prepare (NewAddresser seam, per-interface index) -> RouterAdvertisement x3; oracle = reference RA from the reference model's expected Config; non-trivial = document has >=1 option-producing stanza; distinct = distinct TOML x state"
 	r.Assumptions = []string{"system.NewAddresser returns a fake through a build-time seam (overlay); plugin clock overridden after Prepare"}
 	states := c01States()
 
